@@ -34,8 +34,8 @@ fn plan(tier: Tier) -> Vec<Unit> {
         }
         Tier::Thorough => {
             let mut v = crate::util::split_budget_param("small", 2 * 100_000 - 1, 500, 100_000);
-            v.extend(crate::util::split_budget("random", 4_000_000, 10_000));
-            v.extend(crate::util::split_budget("flags", 400_000, 2_000));
+            v.extend(crate::util::split_budget("random", 30_000_000, 20_000));
+            v.extend(crate::util::split_budget("flags", 3_000_000, 5_000));
             v
         }
         Tier::Miri => {
